@@ -17,11 +17,14 @@ import Ecal.Props.C04Eval
 
 FULL STATEMENT NOT YET PROVED (`loop_range_inclusive_partial`): for a `for v in range(a, b, s)` NODE,
 `eval` runs the block once per element of `rangeVals floatOps a b s`. Proved: the node is `iterLoop`
-over `iterNext … .reeval` (eval_iterloop_is_iterLoop), `iterNext_reeval` re-evaluates the call, and
-`runBuiltin_range_next` shows that the call's state machine performs exactly the `rangeIter` step on
-its entry of the instance state. Missing: the identification of `eval` of the call expression
-(evalIdent → callFunction → argument evaluation) with that step, and the invariant that the block
-leaves the loop's range entry alone.
+over `iterNext … .reeval` (eval_iterloop_is_iterLoop); `eval_range_step`: that iterator — `eval` of the
+call expression, through evalIdent / callFunction / the arguments / the builtin's state machine — IS the
+`rangeIter floatOps` step on the cursor of the call site's entry (hypotheses: `range` not shadowed by a
+function value; the re-evaluation of the arguments leaves the entry alone); `loop_range_runs_rangeVals`:
+the loop over `rangeIter` is `forEach` over `rangeVals`. Missing: the induction over the rounds that
+joins the two, which needs the frame condition "block, binder and arguments leave the loop's range entry
+and the current instance-state map alone" as an invariant of `eval` (true by construction of the entries'
+keys — a call site is only evaluated by its own loop — but a proof goes through all of `eval`).
 -/
 namespace Ecal.Props.C04
 open Ecal.Ev
@@ -168,5 +171,58 @@ theorem runBuiltin_range_next (f sc : Nat) (node : Node) (t : Ecal.Lex.Tok) (a :
   by_cases hd : rangeDone floatOps r.fr r.to r.step r.cur = true
   · simp [hd, run_ite]
   · simp [hd, run_ite]
+
+/-! ### the step of a `for v in range(…)` loop at the level of `eval` -/
+
+/-- the call site at (line, col) has the entry `r` in the current instance-state map -/
+def RangeEntry (line : Nat) (col : Int) (s : St) (r : RangeSt) : Prop :=
+  (s.isStore.getD s.curIs []).find? (fun q => q.line == line && q.col == col) = some r
+
+/-- **eval_range_step**: in a `for v in range(…)` loop whose call site has the entry `r`, the iterator
+    `iterNext … .reeval` — i.e. `eval` of the call expression — IS the `rangeIter floatOps` step on `r.cur`:
+    it ends the loop (break signal at the call) iff `rangeDone floatOps r.fr r.to r.step r.cur`, else it
+    delivers `r.cur`; the entry's cursor advances by the step. Hypotheses: `range` is not shadowed by a
+    function value (`hgv`), and the (re-)evaluation of the arguments yields at least one value and leaves
+    entry and current instance-state map alone (`hargs` — the frame condition for the arguments). -/
+theorem eval_range_step (f ls : Nat) (n it fc : Node) (t : Ecal.Lex.Tok) (s s1 : St) (r : RangeSt)
+    (v' : Val) (b : Bool) (a : Val) (as : List Val)
+    (hn : it.name = "identifier") (ht : it.tok = some t) (hc : it.children = [some fc]) (hfc : fc.name = "funccall")
+    (hname : bytesToString t.val = "range")
+    (hmath : ((splitDots t.val).head? == some (Ecal.Lex.str "math")) = false)
+    (hgv : run (getValue ls t.val) s = (.ok (v', b), s))
+    (hv1 : ∀ id, v' ≠ .func id) (hv2 : ∀ nm, v' ≠ .builtin nm)
+    (hargs : run (argsEval (f+1) ls fc) s = (.ok (a :: as), s1))
+    (hent : RangeEntry t.line t.col s1 r) :
+    run (iterNext (f+5) ls n it .reeval) s =
+      (if rangeDone floatOps r.fr r.to r.step r.cur then .error (rtErr tBreak it)
+       else .ok (.num r.cur, IterSt.reeval),
+       { s1 with isStore := s1.isStore.setIfInBounds s1.curIs (advanceAt t.line t.col (s1.isStore.getD s1.curIs [])) }) := by
+  have key : run (do
+        let args ← argsEval (f+1) ls fc
+        match ← attemptE (runBuiltin (f+1) ls it "range" args) with
+        | .ok r => pure r
+        | .error e => throw (wrapCallErr it e)) s =
+      (.error (if rangeDone floatOps r.fr r.to r.step r.cur then rtErr tBreak it
+               else Sig.iter ⟨tIsIter, t.line, t.col⟩ r.cur),
+       { s1 with isStore := s1.isStore.setIfInBounds s1.curIs (advanceAt t.line t.col (s1.isStore.getD s1.curIs [])) }) := by
+    simp only [run_bind, run_attempt, hargs, runBuiltin_range_next f ls it t a as s1 r ht hent]
+    by_cases hd : rangeDone floatOps r.fr r.to r.step r.cur = true
+    · simp [hd, wrapCallErr, plain, run_throw]
+    · simp [hd, wrapCallErr, run_throw]
+  have hE : run (eval (f+4) ls it) s =
+      (.error (if rangeDone floatOps r.fr r.to r.step r.cur then rtErr tBreak it
+               else Sig.iter ⟨tIsIter, t.line, t.col⟩ r.cur),
+       { s1 with isStore := s1.isStore.setIfInBounds s1.curIs (advanceAt t.line t.col (s1.isStore.getD s1.curIs [])) }) := by
+    rw [eval_range_call (f+1) ls it fc t hn ht hc hfc hname hmath, run_bind, hgv]
+    cases v' with
+    | func id => exact absurd rfl (hv1 id)
+    | builtin nm => exact absurd rfl (hv2 nm)
+    | _ => exact key
+  rw [iterNext_reeval, run_bind, run_attempt, hE]
+  by_cases hd : rangeDone floatOps r.fr r.to r.step r.cur = true
+  · simp only [hd, if_true]
+    unfold rtErr
+    cases it.tok <;> rfl
+  · simp only [hd]; rfl
 
 end Ecal.Props.C04
